@@ -316,7 +316,7 @@ example : ∃ m : MetalIn ℝ, MetalHyp m := by
 /-! ## one body of the H/He fixed-point iteration -/
 
 /-- If the previous iterates satisfy `0 < h0 < 1`, `he0 ≤ 1`, the coefficients are non-negative
-and the effective hydrogen coefficient `ch` of this body (line 712) is non-negative — the
+and the effective hydrogen coefficient `ch` of this body (line 741) is non-negative — the
 hypothesis the proof forces — then the new iterates lie in `[0,1]`, with or without the
 averaging applied after 10 iterations.
 
